@@ -11,6 +11,7 @@ func TestReplay(t *testing.T) {
 		"HarnessCloseEarly": HarnessCloseEarly,
 		"HarnessLateRead":   HarnessLateRead,
 		"HarnessReader":     HarnessReader,
+		"HarnessSameClient": HarnessSameClient,
 		"HarnessTwoCalls":   HarnessTwoCalls,
 	})
 }
